@@ -296,3 +296,10 @@ def run(ctx):
     ctx.exhaustive = True
     ctx.extra["exhaustive_space"] = "nesting depth 2 over all 28x28 single/double key subsets x 4 exception placements; 7x7 (named, assigned) pairs x {normal, exception}"
     ctx.require("hook:Settings.context", "event:enter", "event:exit:normal", "event:exit:exception", "exception_crossed_a_context", "assign:named", "assign:unnamed", "depth:2", "depth:3")
+
+
+def passive(ctx, fl, probe):
+    """attach this property's always-on monitor to a foreign workload (the repository's test-suite, see vf/pytest_plugin.py)"""
+    mon = SettingsMonitor(ctx, fl)
+    mon.install(probe)
+    return None
